@@ -867,7 +867,49 @@ def c20_15(ctx):
     return [ctx.ok(spec, "no refusal of a part depends on the length of its payload text", fn, mod, key="part-total")]
 
 
+def c20_17(ctx):
+    """the part parser on parts of every size the property quantifies over: _parse_bcur_helper evaluated on well-formed single and multi parts
+    whose payload has 1, 58, 300, 1023, 1024, 2000 and 40000 characters of the bc32 alphabet (a 70,000-byte payload in one part has more than
+    100,000) -- all accepted with the payload, checksum and x-of-y returned as written -- and on the same parts with one character outside the
+    alphabet at the first, a middle and the last position -- all refused"""
+    from sa.cells import Evaluator, Raised, Undecided
+    spec = "bcur:_parse_bcur_helper"
+    mod, fn = rl.get(ctx, spec)
+    ALPHA = "qpzry9x8gf2tvdw0s3jn54khce6mua7l"
+    chk = (ALPHA * 2)[:58]
+    n = 0
+    try:
+        for size in (1, 58, 300, 1023, 1024, 2000, 40000):
+            payload = "".join(ALPHA[(i * 7 + size) % 32] for i in range(size))
+            for text, want in (("ur:bytes/%s" % payload, (payload, None, 1, 1)), ("ur:bytes/%s/%s" % (chk, payload), (payload, chk, 1, 1)),
+                               ("ur:bytes/2of3/%s/%s" % (chk, payload), (payload, chk, 2, 3))):
+                n += 1
+                try:
+                    r = Evaluator(ctx.repo, max_steps=3000000).call(spec, [text])
+                except Raised as x:
+                    return [ctx.bad(spec, "a well-formed part whose payload has %d bc32 characters is refused (%s): payloads split into parts of that size -- or sent as one part "
+                                          "-- cannot be reassembled" % (size, x.name), fn, mod, key="part-sizes")]
+                if tuple(r) != want:
+                    return [ctx.bad(spec, "a part with a %d-character payload parses to other fields than it carries" % size, fn, mod, key="part-sizes")]
+            for pos in (0, size // 2, size - 1):
+                n += 1
+                badp = payload[:pos] + "b" + payload[pos + 1:]   # 'b' is not in the bc32 alphabet
+                try:
+                    Evaluator(ctx.repo, max_steps=3000000).call(spec, ["ur:bytes/%s/%s" % (chk, badp)])
+                    return [ctx.bad(spec, "a part whose %d-character payload has the character `b` (outside the bc32 alphabet) at position %d is accepted" % (size, pos), fn, mod,
+                                    key="part-sizes")]
+                except Raised:
+                    pass
+    except Undecided as u:
+        return [ctx.err(spec, "part parser not evaluable: %s" % u, fn, mod)]
+    ctx.count("cells", n)
+    return [ctx.ok(spec, "%d parts with payloads of 1 … 40000 characters: well-formed ones accepted as written, one foreign character refused at any position" % n, fn, mod,
+                   key="part-sizes")]
+
+
+
 OBLIGATIONS = [
+    ("C20.17", "CELLS part sizes", c20_17),
     ("C20.16", "CELLS bc32 spelling", c20_16),
     ("C20.14", "CELLS cbor round trip (bounded)", c20_14),
     ("C20.15", "TOTALITY part parser", c20_15),
